@@ -3,7 +3,7 @@
    the local lemmas below.  The weighted-graph engine as a whole is NOT modelled: its answers are
    compared, request by request, with the reference semantics, the default engine and the
    breaking-change detector by the correspondence run (harness/cmd/c03, ocaml/c03_oracle.ml). *)
-From OFGA Require Import Check.V2Dfs Check.V2Contract Check.V2Sem Check.V2Proofs.
+From OFGA Require Import Check.V2Dfs Check.V2Contract Check.V2Sem Check.V2Streams Check.V2Proofs.
 
 (* 1. The boolean contract the oracle evaluates on every request IS the property's statement:
       (P1) object subject and v2 decided => the decision is the reference semantics;
@@ -79,6 +79,25 @@ Theorem holds3q_noquirks : forall cyc cyct m conds store subj atoms o r,
 Proof. exact V2Proofs.holds3q_noquirks. Qed.
 Print Assumptions holds3q_noquirks.
 
+
+(* 5. Failing result streams in the bottom-up strategies (resolveUnion -> weight2 / recursive
+      execute, Check/V2Streams.v): when both sides are drained, `denied` is answered only if NO
+      consumed stream failed and no value is common; `allowed` only on a real common value.  The
+      driver's fault injection (iterators failing after k tuples, k swept) checks the same
+      predicate on the real engine: an injected read error is never turned into a wrong decision. *)
+Theorem stream_error_never_denied : forall (ss : list stream) (right : stream),
+    execute (union_out ss) right = Denied ->
+    (forall s, In s ss -> snd (consume s) = false) /\ snd (consume right) = false /\
+    (forall s v, In s ss -> In v (fst (consume s)) -> In v (fst (consume right)) -> False).
+Proof. exact V2Proofs.stream_error_never_denied. Qed.
+Print Assumptions stream_error_never_denied.
+
+Theorem stream_allowed_is_witnessed : forall (ss : list stream) (right : stream),
+    execute (union_out ss) right = Allowed ->
+    exists s v, In s ss /\ In v (fst (consume s)) /\ In v (fst (consume right)).
+Proof. exact V2Proofs.stream_allowed_is_witnessed. Qed.
+Print Assumptions stream_allowed_is_witnessed.
+
 (* ---- non-vacuity ---- *)
 (* the contract accepts and rejects concrete observations *)
 Example c03_ok_accepts :
@@ -131,3 +150,13 @@ Proof.
   - left. reflexivity.
   - simpl. auto.
 Qed.
+
+(* the user's groups stream [a; <error>; b] against the document's groups [b] (the shape of seeded
+   C03-m6): the healthy union reports the failure; a union that forgets an error following a value
+   would answer `denied` although the matching group b was never read *)
+Example stream_midstream_error :
+  execute (union_out [[Val 1; Err; Val 2]]) [Val 2] = Failed /\
+  execute (union_out_forgetful [[Val 1; Err; Val 2]]) [Val 2] = Denied /\
+  execute (union_out [[Val 1; Val 2]]) [Val 2] = Allowed /\
+  execute (union_out [[Val 1]; []]) [Val 2] = Denied.
+Proof. repeat split. Qed.
